@@ -64,3 +64,88 @@ contract(U + "Base.__new__@deepcopy",
     serves=["C18"],
     note="nothing but object.__new__(cls) happens: no match(), no reader access (empty modifies clause, frame-checked)",
 )
+
+# --- U4 / F4: deep-copy protocol of the node classes ------------------------------------------------------
+contract(U + "Base.__getnewargs__",
+    types=dict(self="Base"), returns="tuple[any,none,bool]",
+    ensures={"args": "result[0] == self.string and result[2]"},
+    raises=[],
+    serves=["C18"],
+    note="needs self.string: class invariant HAS_STRING, established by every construction path (Base.__new__ tuple branch, Comment.init, Directive.init)",
+)
+
+for _cls in ("Comment", "Directive"):
+    contract(F + "%s.__new__@deepcopy" % _cls,
+        types=dict(cls="cls", string="any", parent_cls="any", _deepcopy="bool"),
+        returns="ref:Base?",
+        requires={"copying": "_deepcopy"},
+        modifies=[],
+        ensures={"fresh_instance": "result is not None and not was_allocated(result) and typeof_is_cls(result, cls)"},
+        raises=[],
+        serves=["C18"],
+        note="Base.__getnewargs__ passes (string, None, True): the third positional parameter must be the deep-copy flag",
+    )
+    contract(F + "%s.init" % _cls,
+        types=dict(self="Base", comment="ref:Comment"),
+        modifies=["self.items", "self.item", "self.string"],
+        ensures={"has_string": "self.string == comment", "item_kept": "self.item == comment", "text_kept": "self.items == [comment.comment]"},
+        raises=[],
+        serves=["C11", "C18"],
+    )
+
+contract(F + "Comment.__new__@reader",
+    types=dict(cls="cls", string="FortranReaderBase", parent_cls="any", _deepcopy="bool"),
+    returns="ref:Base?",
+    requires={"no_copy": "not _deepcopy"},
+    modifies=["view", "*.fifo_item", "*.linecount", "*.filo_line", "*.source_lines", "*.isclosed", "*.items", "*.item", "*.string"],
+    calls={"reader.get_item": "proto:get_item", "reader.put_item": "proto:put_item", "Comment": "proto:comment_from_item"},
+    ensures={
+        "no_match_restores": "implies(result is None, view == old(view))",
+        "consumes_one_comment": "implies(result is not None, len(old(view)) > 0 and old(view) == [old(view)[0]] + view "
+                                "and typeof_is(old(view)[0], 'Comment') and result.item == old(view)[0])",
+        "only_comments": "implies(len(old(view)) > 0 and not typeof_is(old(view)[0], 'Comment'), result is None)",
+    },
+    raises=[],
+    serves=["C11", "C12"],
+)
+
+contract("proto:comment_from_item", trusted=True,
+    types=dict(cls="cls", string="ref:Comment"), returns="ref:Base",
+    modifies=["*.items", "*.item", "*.string"],
+    ensures={"wraps": "result.item == string and not was_allocated(result)"},
+    raises=[],
+    note="Comment(item) for a readfortran.Comment item: the first branch of Comment.__new__ (object.__new__ + init, proved as Comment.init)")
+
+
+R = "fparser.common.readfortran:"
+
+contract("proto:string_rule", trusted=True,
+    types=dict(cls="cls", string="str", parent_cls="any"), returns="ref:Base?", defaults=dict(parent_cls=None),
+    modifies=["rule_evals"],
+    ensures={"counted": "rule_evals == old(rule_evals) + 1"},
+    raises={"NoMatchError": {"counted": "rule_evals == old(rule_evals) + 1"}, "*!NoMatchError": {"counted": "rule_evals == old(rule_evals) + 1"}},
+    note="cls(string): evaluation of a string-level rule; touches neither reader nor scopes; counted by the ghost rule_evals")
+
+contract(R + "Line.parse_line",
+    types=dict(self="Line", cls="cls", parent_cls="any"), returns="ref:Base?",
+    modifies=["self.parse_cache", "rule_evals"],
+    calls={"cls": "proto:string_rule"},
+    ensures={
+        "cached_is_returned": "implies(cls in old(self.parse_cache), result == old(self.parse_cache)[cls] and self.parse_cache == old(self.parse_cache))",
+        "cached_costs_nothing": "implies(cls in old(self.parse_cache), rule_evals == old(rule_evals))",
+        "at_most_one_evaluation": "rule_evals <= old(rule_evals) + 1",
+        "result_is_cached": "cls in self.parse_cache and self.parse_cache[cls] == result",
+        "other_entries_kept": "dict_same_except(self.parse_cache, old(self.parse_cache), cls)",
+    },
+    raises={"*": {"guard_stays": "cls in self.parse_cache", "one_evaluation": "rule_evals == old(rule_evals) + 1 and cls not in old(self.parse_cache)"}},
+    serves=["C10", "C20"],
+)
+
+contract(U + "Base.get_root",
+    types=dict(self="Base"), returns="ref:Base",
+    ensures={"is_root": "result.parent is None"},
+    raises=[],
+    loops={0: dict(invariant={"t": "True"}, types={"current": "ref:Base"})},
+    serves=["C10"],
+    note="termination needs an acyclic parent chain (not verified: partial correctness)",
+)
